@@ -33,31 +33,30 @@ Full statement (FALSE of the model and of the code, see the three witnesses belo
     theorem default_valid (hd : fieldDefault E C us t lit = .ok d) (hvt : validatorOf t = some vt)
         (hv : pyOfStored us t d = some v) : ∃ v', validate E env vt v = .ok v' ∧ acceptedAs E v v'
 
-It needs (a) a law relating the compile-time pattern test to the runtime one — `re.match(p, s)` is a
-prefix match, the runtime anchors the pattern at both ends, so the law does not hold of the real
-external calls (D12) — and (b) the exclusion of Timestamp and Bytes, whose default stays the text of the
-literal while the runtime wants a datetime / bytes object. -/
+It needs the exclusion of Timestamp and Bytes, whose default stays the text of the literal while the
+runtime wants a datetime / bytes object. (It used to need a law relating the compile-time pattern test to
+the runtime one as well: `String.check` tested a prefix match, D12; since the repair it uses `fullmatch`,
+the test the generated validator makes, and the model asks the same external call `E.patMatch`.) -/
 
 /-- Every default the compiler accepts for a field whose type involves no Timestamp / Bytes is accepted by
 the validator the generated class has for the field, and comes back unchanged (a number in a float
-position as the float of that number) — provided the compile-time pattern test implies the runtime one.
+position as the float of that number).
 `unionsAgree` (checked by the driver on every real environment): the classes of each union chain exist. -/
 theorem default_valid_partial (E : Ext) (C : CExt) (us : List CUnion) (env : Env) (hU : unionsAgree us env = true)
     (t : IrTy) (lit d : Lit) (vt : PTy) (v : PyVal)
     (hts : noTextual t = true)
-    (hpat : ∀ p s, patternOf t = some p → C.prefixMatch p s = true → E.patMatch p s = true)
     (hd : fieldDefault E C us t lit = .ok d) (hvt : validatorOf t = some vt) (hv : pyOfStored us t d = some v) :
     ∃ v', validate E env vt v = .ok v' ∧ acceptedAs E v v' :=
-  check_valid E C us env hU t d vt v hts hpat (fieldDefault_check hd) hvt hv
+  check_valid E C us env hU t d vt v hts (fieldDefault_check hd) hvt hv
 
-/-- Without any assumption on the external calls: every type that carries no pattern (Boolean, the integer
-and float types with their limits, String with length bounds, unions, aliases of those). -/
+/-- The special case of types that carry no pattern (kept under its name; before the repair of `String.check` it was
+the part that held without an assumption on the external calls). -/
 theorem default_valid_nopattern (E : Ext) (C : CExt) (us : List CUnion) (env : Env) (hU : unionsAgree us env = true)
     (t : IrTy) (lit d : Lit) (vt : PTy) (v : PyVal)
     (hts : noTextual t = true) (hnp : patternOf t = none)
     (hd : fieldDefault E C us t lit = .ok d) (hvt : validatorOf t = some vt) (hv : pyOfStored us t d = some v) :
     ∃ v', validate E env vt v = .ok v' ∧ acceptedAs E v v' :=
-  default_valid_partial E C us env hU t lit d vt v hts (by intro p s h; simp [hnp] at h) hd hvt hv
+  default_valid_partial E C us env hU t lit d vt v hts hd hvt hv
 
 /-- The check the compiler runs is the one the property speaks of: `checkDefault` succeeds exactly when
 `fieldDefault` stores something. -/
@@ -139,8 +138,7 @@ theorem example_check_no_crash (E : Ext) (C : CExt) (us : List CUnion) (ex : Lis
 
 /-! ### concrete external calls for the witnesses and examples
 
-`patMatch` / `prefixMatch` are the answers of `re` on the inputs the witnesses use
-(`\A(?:a)\Z` does not match "ab", `re.match("a", "ab")` does; "[a-z]{2}" against "abc" likewise). -/
+`patMatch` gives the answers of `re` on the inputs the examples use (`\A(?:a)\Z` does not match "ab"). -/
 
 def exE : Ext where
   fltLt a b := a < b            -- adequate for the non-negative floats of the examples
@@ -158,20 +156,21 @@ def exE : Ext where
   strOfFlt _ := ""
 
 def exC : CExt where
-  prefixMatch p s := (p == "a" && (s == "a" || s == "ab")) || (p == "[a-z]{2}" && (s == "ab" || s == "abc"))
+  intExact n := n == 0 || n == 1 || n == 7
   strptimeOk f s := f == "%Y" && s == "2020"
 
 def emptyEnv : Env := { structs := [], unions := [] }
 
-/-- D12: `f String(pattern="a") = "ab"` is accepted at compile time (prefix match) and the generated class
-refuses its own default (whole-string match). The hypothesis `hpat` of `default_valid_partial` fails for it. -/
+/-- Regression (formerly the witness D12): `f String(pattern="a") = "ab"` used to be accepted at compile time (prefix
+match) while the generated class refuses the value (whole-string match). Both sides now ask the same question and the
+compiler refuses the default. -/
 theorem default_pattern_witness :
-    fieldDefault exE exC [] (.str none none (some "a")) (.str "ab") = .ok (.str "ab") ∧
-    pyOfStored [] (.str none none (some "a")) (.str "ab") = some (.str "ab") ∧
+    fieldDefault exE exC [] (.str none none (some "a")) (.str "ab") = invalid "did not match pattern" ∧
+    fieldDefault exE exC [] (.str none none (some "a")) (.str "a") = .ok (.str "a") ∧
     validatorOf (.str none none (some "a")) = some (.str {} none none (some "a")) ∧
     validate exE emptyEnv (.str {} none none (some "a")) (.str "ab") = verr "did not match pattern" ∧
-    exC.prefixMatch "a" "ab" = true ∧ exE.patMatch "a" "ab" = false := by
-  exact ⟨rfl, rfl, rfl, rfl, by decide, by decide⟩
+    exE.patMatch "a" "ab" = false := by
+  exact ⟨rfl, rfl, rfl, rfl, by decide⟩
 
 /-- A Timestamp default is accepted (the text parses with the format) and stays text; the generated class
 wants a datetime and refuses it. -/
@@ -195,15 +194,19 @@ theorem default_bytes_witness :
 example : fieldDefault exE exC [] (.int "Int32" none none) (.int 2147483647) = .ok (.int 2147483647) ∧
     fieldDefault exE exC [] (.int "Int32" none none) (.int 2147483648) = invalid "not within range" ∧
     fieldDefault exE exC [] (.int "Int32" none (some 5)) (.int 6) = invalid "greater than max_value" ∧
-    fieldDefault exE exC [] (.int "UInt64" none none) (.bool true) = .ok (.bool true) := by
-  exact ⟨rfl, rfl, rfl, rfl⟩
+    fieldDefault exE exC [] (.int "UInt64" none none) (.bool true) = invalid "boolean is not a valid integer" ∧
+    fieldDefault exE exC [] (.float "Float64" none none) (.bool true) = invalid "boolean is not a valid real number" := by
+  exact ⟨rfl, rfl, rfl, rfl, rfl⟩
 
 example : fieldDefault exE exC [] (.float "Float64" none none) (.int 1) = .ok (.flt 4607182418800017408) ∧
     fieldDefault exE exC [] (.alias "ns.F" none (.float "Float64" none none)) (.int 1) = .ok (.int 1) ∧
     fieldDefault exE exC [] (.float "Float64" none none) .null = invalid "not a valid real number" ∧
     fieldDefault exE exC [] (.float "Float64" none none) (.str "1.5") = invalid "not a valid real number" ∧
-    -- (`exE.fltOfInt` answers for 0 and 1 only: 7 stands for an integer `float()` overflows on)
-    fieldDefault exE exC [] (.float "Float64" none none) (.int 7) = invalid "int too large to convert to float" ∧
+    -- (`exE.fltOfInt` answers for 0 and 1 only: 7 stands for an integer `float()` overflows on, 9 for one
+    -- that `float()` rounds: `exC.intExact 9 = false`)
+    fieldDefault exE exC [] (.float "Float64" none none) (.int 7) = invalid "too large for float" ∧
+    fieldDefault { exE with fltOfInt := fun _ => some 0 } exC [] (.float "Float64" none none) (.int 9) =
+      invalid "cannot be represented as a float exactly" ∧
     fieldDefault exE exC [] (.float "Float64" none (some 0)) (.int 1) = invalid "greater than max_value" ∧
     fieldDefault exE exC [] (.nullable (.int "Int32" none none)) (.int 1) =
       invalid "Field cannot be a nullable type and have a default specified" ∧
@@ -212,14 +215,12 @@ example : fieldDefault exE exC [] (.float "Float64" none none) (.int 1) = .ok (.
     fieldDefault exE exC [] (.alias "ns.L" none (.map (.str none none none) .bool)) .null =
       invalid "Field cannot have a default: only fields of a primitive or union type can" ∧
     fieldDefault exE exC [] (.alias "ns.V" none .void) .null = invalid "Struct field cannot have a Void type" := by
-  exact ⟨rfl, rfl, rfl, rfl, rfl, rfl, rfl, rfl, rfl, rfl⟩
+  exact ⟨rfl, rfl, rfl, rfl, rfl, rfl, rfl, rfl, rfl, rfl, rfl⟩
 
-/-- a compiler whose pattern test is the runtime's (what repairing D12 gives): the law holds -/
-def anchoredC : CExt := { exC with prefixMatch := exE.patMatch }
-
+/-- a pattern that is matched whole -/
 example : ∃ v', validate exE emptyEnv (.str {} none none (some "[a-z]{2}")) (.str "ab") = .ok v' ∧ acceptedAs exE (.str "ab") v' :=
-  default_valid_partial exE anchoredC [] emptyEnv (by decide) (.str none none (some "[a-z]{2}")) (.str "ab") (.str "ab") _ _
-    (by decide) (fun _ _ _ h => h) rfl rfl rfl
+  default_valid_partial exE exC [] emptyEnv (by decide) (.str none none (some "[a-z]{2}")) (.str "ab") (.str "ab") _ _
+    (by decide) rfl rfl rfl
 
 /-! ## 3. reading a defaulted field that was never set -/
 
@@ -272,7 +273,6 @@ position as the float). -/
 theorem default_assign_partial (E : Ext) (C : CExt) (us : List CUnion) (env : Env) (hU : unionsAgree us env = true)
     (cf : CField) (lit d : Lit) (fd : FieldDef) (slots : List (String × PyVal))
     (hts : noTextual cf.ty = true)
-    (hpat : ∀ p s, patternOf cf.ty = some p → C.prefixMatch p s = true → E.patMatch p s = true)
     (hacc : fieldDefault E C us cf.ty lit = .ok d) (hcf : cf.dflt = some d) (hfd : fieldDefOfC us cf = some fd) :
     ∃ v v', fd.dflt = some v ∧ attrSet E env fd slots v = .ok (setSlot fd.name v' slots) ∧ acceptedAs E v v' := by
   obtain ⟨vt, hvt, hname, hty, hnull, hud, _, hdf⟩ := fieldDefOfC_inv hfd
@@ -289,7 +289,7 @@ theorem default_assign_partial (E : Ext) (C : CExt) (us : List CUnion) (env : En
     refine ⟨v, v, hdv, ?_, Or.inl rfl⟩
     simp [attrSet, hnn, hud, hu, hty, ← hvt, h2, bind, Except.bind, pure, Except.pure]
   | false =>
-    obtain ⟨v', h1, h2⟩ := check_valid E C us env hU cf.ty d vt v hts hpat hc hvt hp
+    obtain ⟨v', h1, h2⟩ := check_valid E C us env hU cf.ty d vt v hts hc hvt hp
     refine ⟨v, v', hdv, ?_, h2⟩
     simp [attrSet, hnn, hud, hu, hty, h1, bind, Except.bind, pure, Except.pure]
 
@@ -351,7 +351,6 @@ and exact literal kinds `hexact` (`true` for an Int32 or `1` for a Float64 re-en
 theorem example_roundtrip_partial (E : Ext) (C : CExt) (us : List CUnion) (env : Env) (cs : CStruct) (sd : StructDef)
     (ex : List (String × ExVal))
     (hwf : envWF env = true) (hchain : envWFX env = true) (hsub : cs.subtypes = none)
-    (hpat : ∀ p s, C.prefixMatch p s = true → E.patMatch p s = true)
     (hsd : structDefOfC us cs = some sd) (henv : env.struct? cs.cls = some sd)
     (hscalar : ∀ f ∈ cs.allFields, scalarTy f.ty = true)
     (hpub : ∀ f ∈ cs.allFields, f.omitted = none)
@@ -363,13 +362,12 @@ theorem example_roundtrip_partial (E : Ext) (C : CExt) (us : List CUnion) (env :
     ∃ kvs v kvs', structExampleDoc cs ex = some (.obj kvs) ∧
       jsonCompatObjDecode E env [] true (.struct {} cs.cls) (.obj kvs) = .ok v ∧
       jsonCompatObjEncode E env [] false (.struct {} cs.cls) v = .ok (.obj kvs') ∧ kvs'.Perm kvs :=
-  example_roundtrip_encode_partial E C us env cs sd ex hwf hchain hsub hpat hsd henv hscalar hpub hnd hdef hexact hadd
+  example_roundtrip_encode_partial E C us env cs sd ex hwf hchain hsub hsd henv hscalar hpub hnd hdef hexact hadd
 
 /-- The same against the specification-level wire form (json_serializer.rst as a function), with the decoded
 instance shown valid and in normal form — no well-formedness assumption on the rest of the environment. -/
 theorem example_roundtrip_wire_partial (E : Ext) (C : CExt) (us : List CUnion) (env : Env) (cs : CStruct) (sd : StructDef)
     (ex : List (String × ExVal))
-    (hpat : ∀ p s, C.prefixMatch p s = true → E.patMatch p s = true)
     (hsd : structDefOfC us cs = some sd) (henv : env.struct? cs.cls = some sd)
     (hscalar : ∀ f ∈ cs.allFields, scalarTy f.ty = true)
     (hpub : ∀ f ∈ cs.allFields, f.omitted = none)
@@ -384,14 +382,13 @@ theorem example_roundtrip_wire_partial (E : Ext) (C : CExt) (us : List CUnion) (
       (∃ kvs', wire E env (.struct {} cs.cls) (.struct cs.cls slots) = .obj kvs' ∧ kvs'.Perm kvs) ∧
       normalB env (.struct {} cs.cls) (.struct cs.cls slots) = true ∧
       (cs.cls ∈ cs.chain.map (·.1) → validB E env (.struct {} cs.cls) (.struct cs.cls slots) = true) :=
-  IrCheck.example_roundtrip_partial E C us env cs sd ex hpat hsd henv hscalar hpub hnd hdef hexact hadd
+  IrCheck.example_roundtrip_partial E C us env cs sd ex hsd henv hscalar hpub hnd hdef hexact hadd
 
 /-- Union examples with exactly one tag whose type is Void or scalar (the tag is not the catch-all): the
 computed document `{".tag": t}` / `{".tag": t, t: value}` decodes strictly and encodes back to itself. -/
 theorem example_union_roundtrip_partial (E : Ext) (C : CExt) (us : List CUnion) (env : Env) (cu : CUnion) (ud : UnionDef)
     (tag : String) (v : ExVal) (t : CTag)
     (hwf : envWF env = true) (hchain : envWFX env = true)
-    (hpat : ∀ p s, C.prefixMatch p s = true → E.patMatch p s = true)
     (hud : unionDefOfC cu = some ud) (henv : env.union? cu.cls = some ud)
     (hpub : ∀ t ∈ cu.allTags, t.omitted = none) (hnd : (cu.allTags.map (·.name)).Nodup)
     (ht : cu.allTags.find? (·.name == tag) = some t)
@@ -402,7 +399,7 @@ theorem example_union_roundtrip_partial (E : Ext) (C : CExt) (us : List CUnion) 
     ∃ doc u, unionExampleDoc cu [(tag, v)] = some doc ∧
       jsonCompatObjDecode E env [] true (.union {} cu.cls) doc = .ok u ∧
       jsonCompatObjEncode E env [] false (.union {} cu.cls) u = .ok doc :=
-  example_union_roundtrip_encode_partial E C us env cu ud tag v t hwf hchain hpat hud henv hpub hnd ht hty hca htne hexact hadd
+  example_union_roundtrip_encode_partial E C us env cu ud tag v t hwf hchain hud henv hpub hnd ht hty hca htne hexact hadd
 
 /-- A union example `tag = null` for a member of nullable struct type (`t S2?`) — a TypeError in
 `Union._compute_example` until repair 00ddb10 — is accepted without further hypotheses, its document is the tag
@@ -455,7 +452,7 @@ example : ∃ kvs v kvs', structExampleDoc rtItem rtEx = some (.obj kvs) ∧
     simp only [Bool.and_eq_true, Option.isNone_iff_eq_none] at this
     exact ⟨this.1.1.1, this.1.1.2, this.1.2, this.2⟩
   exact example_roundtrip_partial rtE rtC rtApi.unions rtApiEnv rtItem sd rtEx rtApiEnv_wf.2.1 rtApiEnv_wf.2.2 rfl
-    (fun _ _ h => h) hsd henv (fun f hfm => (hf' f hfm).1) (fun f hfm => (hf' f hfm).2.1) (by decide)
+    hsd henv (fun f hfm => (hf' f hfm).1) (fun f hfm => (hf' f hfm).2.1) (by decide)
     (fun f hfm => hdef_of_dfltOK (hf' f hfm).2.2.1) (fun f hfm => hexact_of_exactOK (hf' f hfm).2.2.2) rfl
 
 /-- The document is in `all_fields` order (required `id`, `name`, `score`, then the default of `flag`; no key
@@ -468,13 +465,14 @@ example :
       .obj [("id", .int 7), ("flag", .bool false), ("name", .str "ab"), ("score", .flt 4609434218613702656)] :=
   ⟨rfl, rfl⟩
 
-/-- `hexact` is needed: `k = true` for `k Int32` is accepted by the compiler and by the strict decoder, and the
-instance encodes as `{"k": 1}` — not the document. -/
+/-- Regression (formerly the witness that `hexact` is needed for booleans): `k = true` for `k Int32` used to be accepted by
+the compiler; the strict decoder takes the document and the instance encodes as `{"k": 1}` — not the document. Since the
+repair of `_BoundedInteger.check` / `_BoundedFloat.check` the compiler refuses the example (no document is computed). -/
 theorem example_bool_for_int_witness :
-    addStructExample rtE rtC [] rtB [("k", .lit (.bool true))] = .ok () ∧
-    structExampleDoc rtB [("k", .lit (.bool true))] = some (.obj [("k", .bool true)]) ∧
+    addStructExample rtE rtC [] rtB [("k", .lit (.bool true))] =
+      .error (.invalid "Bad example for field: boolean is not a valid integer") ∧
     decode rtE rtBEnv [] true (.struct {} "ns.B") (.obj [("k", .bool true)]) = .ok (.struct "ns.B" [("k", .bool true)]) ∧
     wire rtE rtBEnv (.struct {} "ns.B") (.struct "ns.B" [("k", .bool true)]) = .obj [("k", .int 1)] :=
-  ⟨rfl, rfl, rfl, rfl⟩
+  ⟨rfl, rfl, rfl⟩
 
 end StoneVerif.C10
